@@ -17,7 +17,7 @@ REPO = os.environ.get("VERIF_REPO", "/repo")
 OUTDIR = os.path.join(os.path.dirname(os.path.abspath(__file__)), "..", "coq", "theories")
 # generated file -> functions (one file per group of properties: bfs / dfs are tied to C02, C03; expand_to_target to C06)
 GROUPS = [("PySrcSd.v", ["expand_bfs", "expand_dfs"]), ("PySrcSdTarget.v", ["expand_to_target"]), ("PySrcSdMin.v", ["expand_minimal_spaces"]),
-          ("PySrcSdASeeds.v", ["expand_attractor_seeds"]), ("PySrcSdScc.v", ["attach_scc_subdiagram"])]
+          ("PySrcSdASeeds.v", ["expand_attractor_seeds"]), ("PySrcSdScc.v", ["attach_scc_subdiagram"]), ("PySrcSdSccMain.v", ["expand_source_SCCs"])]
 
 class Unsupported(Exception):
     pass
@@ -29,11 +29,12 @@ COQ_TY = {"nat": "nat", "optnat": "(option nat)", "bool": "bool", "natlist": "(l
           "natset": "(list nat)", "space": "space", "optspace": "(option space)", "stack": "(list (nat * option (list nat)))",
           "spacelist": "(list space)", "pnobj": "unit", "unit": "unit", "optspacelist": "(list (option space))", "retained": "retained",
           "statelist": "(list state)", "netobj": "unit", "graphobj": "unit", "nfvstape": "(list (list nat))",
-          "idmap": "(list (nat * nat))", "sdobj": "sd", "qtape": "(list (option bool))", "natlist_qtape": "(list nat * list (option bool))"}
+          "idmap": "(list (nat * nat))", "sdobj": "sd", "comp": "(list nat)", "expanderopt": "unit", "qtape": "(list (option bool))", "natlist_qtape": "(list nat * list (option bool))",
+          "bool_qtape": "(bool * list (option bool))", "complist": "(list (list nat))", "bitlist": "(list bool)", "bitlistlist": "(list (list bool))"}
 DFLT = {"nat": "0", "optnat": "(@None nat)", "bool": "false", "natlist": "(@nil nat)", "optnatlist": "(@None (list nat))",
         "natset": "(@nil nat)", "space": "(@nil (option bool))", "optspace": "(@None space)", "stack": "(@nil (nat * option (list nat)))",
         "spacelist": "(@nil space)", "pnobj": "Datatypes.tt", "optspacelist": "(@nil (option space))", "retained": "(@nil (nat * bool))",
-        "statelist": "(@nil state)", "netobj": "Datatypes.tt", "graphobj": "Datatypes.tt", "nfvstape": "tape", "idmap": "(@nil (nat * nat))", "qtape": "tape"}
+        "statelist": "(@nil state)", "netobj": "Datatypes.tt", "graphobj": "Datatypes.tt", "nfvstape": "tape", "idmap": "(@nil (nat * nat))", "qtape": "tape", "complist": "(@nil (list nat))", "bitlistlist": "(@nil (list bool))", "sdobj": "no_sd_"}
 OPT_OF = {"nat": "optnat", "natlist": "optnatlist", "space": "optspace"}
 
 # function -> file, arguments (after sd), local types, fuel of each `while` in order of appearance
@@ -70,6 +71,13 @@ FUNCS = [
          locs={"node_id_map": "idmap", "attach_at_space": "space", "min_traps": "natlist", "scc_node_space": "space", "extended_node_space": "space",
                "main_node_id": "nat", "main_succ_id": "nat", "inner_stable_motif": "space", "tape_": "qtape"},
          loopvars={"scc_node_id": "nat", "scc_node_succ": "nat"}, alias=["main_data", "attach_data"], fuels=[]),
+    dict(name="expand_source_SCCs", path="biobalm/_sd_algorithms/expand_source_SCCs.py", sccmain=True, scc=True, no_wrapper=True,
+         args=[("check_maa", "bool"), ("recursion", "nat"), ("expander", "expanderopt")], ret="bool_qtape",
+         defaults={"recursion": 0, "expander": None},
+         locs={"root": "nat", "current_level": "natset", "next_level": "natset", "node_space": "space", "perc_bn": "netobj", "sources": "natlist",
+               "bin_values_iter": "bitlistlist", "valuation": "space", "sub_space": "space", "source_scc_diagrams": "complist",
+               "attach_at_list": "natlist", "next_attach_at_list": "natlist", "fully_expanded": "bool", "tape_": "qtape", "sub_": "sdobj"},
+         loopvars={"bin_values": "bitlist", "node_id": "nat", "scc_diagram": "comp", "attach_at": "nat"}, alias=[], fuels=["(S fuel_)"]),
 ]
 
 class Fn:
@@ -129,6 +137,58 @@ class Fn:
         return None
 
     def expr(self, e, want=None):
+        if self.spec.get("sccmain"):
+            if isinstance(e, ast.Call) and isinstance(e.func, ast.Name) and e.func.id == "source_nodes" and len(e.args) == 1 and isinstance(e.args[0], ast.Name) \
+                    and self.env.get(e.args[0].id) == "netobj" and e.args[0].id in self.obj_of and not e.keywords:
+                return (f"(sources_in_b N {self.obj_of[e.args[0].id]})", False, "natlist")        # source_nodes(percolate_network(network, space))
+            if isinstance(e, ast.Call) and isinstance(e.func, ast.Name) and e.func.id == "percolate_network" and len(e.args) == 2 and not e.keywords \
+                    and isinstance(e.args[0], ast.Attribute) and e.args[0].attr == "network" and self.is_sd(e.args[0].value):
+                a = self.expr(e.args[1])
+                if a[2] != "space" or a[1]: fail(e, "percolate_network space")
+                self.last_obj_node = a[0]                                        # here: the SPACE the network was percolated to
+                return ("Datatypes.tt", False, "netobj")
+            if isinstance(e, ast.BinOp) and isinstance(e.op, ast.Pow) and isinstance(e.left, ast.Constant) and e.left.value == 2:
+                a = self.expr(e.right)
+                if a[2] != "nat" or a[1]: fail(e, "power")
+                return (f"(Nat.pow 2 {a[0]})", False, "nat")
+            if isinstance(e, ast.Subscript) and isinstance(e.slice, ast.Constant) and e.slice.value == "max_motifs_per_node" and isinstance(e.value, ast.Attribute) \
+                    and e.value.attr == "config" and self.is_sd(e.value.value):
+                return ("(max_motifs cfg)", False, "nat")
+            if isinstance(e, ast.Call) and isinstance(e.func, ast.Attribute) and e.func.attr == "product" and isinstance(e.func.value, ast.Name) and e.func.value.id == "it" \
+                    and len(e.args) == 1 and ast.dump(e.args[0]) == "Call(func=Name(id='range', ctx=Load()), args=[Constant(value=2)], keywords=[])" \
+                    and len(e.keywords) == 1 and e.keywords[0].arg == "repeat":
+                k = self.expr(e.keywords[0].value)
+                if k[2] != "nat" or k[1]: fail(e, "product repeat")
+                return (f"(bit_vectors {k[0]})", False, "bitlistlist")
+            if isinstance(e, ast.Call) and isinstance(e.func, ast.Name) and e.func.id == "cast" and len(e.args) == 2 and not e.keywords:
+                return self.expr(e.args[1], want)
+            if isinstance(e, ast.Call) and isinstance(e.func, ast.Name) and e.func.id == "dict" and len(e.args) == 1 and not e.keywords \
+                    and isinstance(e.args[0], ast.Call) and isinstance(e.args[0].func, ast.Name) and e.args[0].func.id == "zip" and len(e.args[0].args) == 2:
+                a, b = self.expr(e.args[0].args[0]), self.expr(e.args[0].args[1])
+                if a[2] != "natlist" or b[2] != "bitlist" or a[1] or b[1]: fail(e, "dict(zip(..))")
+                return (f"(assign (nvars N) (combine {a[0]} {b[0]}))", False, "space")
+            if isinstance(e, ast.Call) and isinstance(e.func, ast.Name) and e.func.id == "list" and len(e.args) == 1 and not e.keywords \
+                    and isinstance(e.args[0], ast.Call) and isinstance(e.args[0].func, ast.Attribute) and e.args[0].func.attr == "source_scc_subdiagrams" \
+                    and self.is_sd(e.args[0].func.value) and len(e.args[0].args) == 1:
+                a = self.expr(e.args[0].args[0])
+                if a[2] != "nat" or a[1]: fail(e, "node id")
+                self.last_comp_node = a[0]
+                return (f"(source_sccs N (n_space (get sd_ {a[0]})))", False, "complist")
+            if isinstance(e, ast.Call) and isinstance(e.func, ast.Name) and e.func.id == "len" and len(e.args) == 1 and isinstance(e.args[0], ast.Name) \
+                    and self.env.get(e.args[0].id) in ("complist", "natset") and not e.keywords:
+                return (f"(length {e.args[0].id})", False, "nat")
+            if isinstance(e, ast.Call) and isinstance(e.func, ast.Name) and e.func.id == "sorted" and len(e.args) == 1 and not e.keywords:
+                a = self.expr(e.args[0])
+                if a[2] == "natset" and not a[1]: return (f"(sort_nat {a[0]})", False, "natlist")
+            if isinstance(e, ast.Compare) and len(e.ops) == 1 and isinstance(e.ops[0], ast.Eq) and isinstance(e.comparators[0], ast.List) and len(e.comparators[0].elts) == 1:
+                a, b = self.expr(e.left), self.expr(e.comparators[0].elts[0])
+                if a[2] == "natlist" and b[2] == "nat" and not a[1] and not b[1]:
+                    return (f"(match {a[0]} with [y_] => Nat.eqb y_ {b[0]} | _ => false end)", False, "bool")
+            if isinstance(e, ast.BinOp) and isinstance(e.op, ast.BitOr) and isinstance(e.right, ast.Call) and isinstance(e.right.func, ast.Name) and e.right.func.id == "set" \
+                    and len(e.right.args) == 1:
+                a, b = self.expr(e.left), self.expr(e.right.args[0])
+                if a[2] == "natset" and b[2] == "natlist" and not a[1] and not b[1]:
+                    return (f"(union_nat {a[0]} {b[0]})", False, "natset")
         if self.spec.get("scc"):
             if isinstance(e, ast.Subscript) and isinstance(e.slice, ast.Constant) and e.slice.value == "space" and isinstance(e.value, ast.Call) \
                     and isinstance(e.value.func, ast.Attribute) and e.value.func.attr == "node_data" and isinstance(e.value.func.value, ast.Name) \
@@ -439,6 +499,10 @@ class Fn:
             return self.block(rest)                                   # docstring
         if self.is_debug_block(s):
             return self.block(rest)                                   # if sd.config["debug"]: print(...)
+        if self.spec.get("sccmain"):
+            r = self.sccmain_stmt(s, rest)
+            if r is not None:
+                return r
         if self.spec.get("scc"):
             r = self.scc_stmt(s, rest)
             if r is not None:
@@ -658,6 +722,128 @@ class Fn:
             return self.seq(head, rest)
         fail(s, "unsupported statement")
 
+    def sccmain_stmt(self, s, rest):
+        """statement forms of expand_source_SCCs (recursion through the default expander, sub-diagrams of the source SCCs, sets of node ids)"""
+        isc = lambda v, c: isinstance(v, ast.Constant) and v.value is c
+        def succ_call(x):          # sd.node_successors(n, compute=True)
+            return isinstance(x, ast.Call) and isinstance(x.func, ast.Attribute) and x.func.attr == "node_successors" and self.is_sd(x.func.value) \
+                and len(x.args) == 1 and len(x.keywords) == 1 and x.keywords[0].arg == "compute" and isc(x.keywords[0].value, True)
+        def with_successors(x, k):
+            a = self.expr(x.args[0])
+            if a[2] != "nat" or a[1]: fail(x, "node id")
+            return (f"(let '(d1_, r_, v_) := node_successors N cfg sd_ {a[0]} in match r_ with RUnit => let sd_ := d1_ in {k('v_')} | _ => SRaise d1_ r_ end)")
+        # if expander is None: def default_expander(sd): return expand_source_SCCs(sd, check_maa, recursion + 1); expander = default_expander
+        if isinstance(s, ast.If) and not s.orelse and ast.dump(s.test) == "Compare(left=Name(id='expander', ctx=Load()), ops=[Is()], comparators=[Constant(value=None)])":
+            want = ("[FunctionDef(name='default_expander', args=arguments(posonlyargs=[], args=[arg(arg='sd', annotation=Name(id='SuccessionDiagram', ctx=Load()))], "
+                    "kwonlyargs=[], kw_defaults=[], defaults=[]), body=[Return(value=Call(func=Name(id='expand_source_SCCs', ctx=Load()), args=[Name(id='sd', ctx=Load()), "
+                    "Name(id='check_maa', ctx=Load()), BinOp(left=Name(id='recursion', ctx=Load()), op=Add(), right=Constant(value=1))], keywords=[]))], decorator_list=[]), "
+                    "Assign(targets=[Name(id='expander', ctx=Store())], value=Name(id='default_expander', ctx=Load()))]")
+            got = "[" + ", ".join(ast.dump(b) for b in s.body) + "]"
+            if got != want: fail(s, "the default expander is not the recursive call")
+            self.default_expander = True
+            return self.block(rest)
+        # return True / False (with the remaining tape)
+        if isinstance(s, ast.Return) and isinstance(s.value, ast.Constant) and s.value.value in (True, False):
+            return f"(SRet sd_ ({'true' if s.value.value else 'false'}, tape_))"
+        if isinstance(s, ast.Raise):
+            if not (isinstance(s.exc, ast.Call) and isinstance(s.exc.func, ast.Name) and s.exc.func.id == "RuntimeError"): fail(s, "raise")
+            return "(SRaise sd_ (RRaised ErrMotifLimit))"
+        # next_level.add(sd._ensure_node(root, sub_space))
+        if isinstance(s, ast.Expr) and isinstance(s.value, ast.Call) and isinstance(s.value.func, ast.Attribute) and s.value.func.attr == "add" \
+                and isinstance(s.value.func.value, ast.Name) and self.locs.get(s.value.func.value.id) == "natset" and len(s.value.args) == 1 \
+                and self.is_call(s.value.args[0], "_ensure_node") and self.is_sd(s.value.args[0].func.value) and len(s.value.args[0].args) == 2 and not s.value.args[0].keywords:
+            name = s.value.func.value.id
+            self.need_state(name, s)
+            a, b = self.expr(s.value.args[0].args[0]), self.expr(s.value.args[0].args[1])
+            if a[2] != "nat" or b[2] != "space" or a[1] or b[1]: fail(s, "_ensure_node arguments")
+            return f"(let '(d1_, c_) := ensure_node N sd_ (Some {a[0]}) {b[0]} in let sd_ := d1_ in let {name} := union_nat {name} [c_] in {self.block(rest)})"
+        # sd.node_data(i)["expanded"] = True ; ["attractor_candidates"] = None
+        if isinstance(s, ast.Assign) and len(s.targets) == 1 and isinstance(s.targets[0], ast.Subscript) and isinstance(s.targets[0].slice, ast.Constant) \
+                and isinstance(s.targets[0].value, ast.Call) and isinstance(s.targets[0].value.func, ast.Attribute) and s.targets[0].value.func.attr == "node_data" \
+                and self.is_sd(s.targets[0].value.func.value) and len(s.targets[0].value.args) == 1 and s.targets[0].slice.value in ("expanded", "attractor_candidates"):
+            a = self.expr(s.targets[0].value.args[0])
+            if a[2] != "nat" or a[1]: fail(s, "node id")
+            f = s.targets[0].slice.value
+            if f == "expanded" and isc(s.value, True): setter = "set_exp y_ true"
+            elif f == "attractor_candidates" and isc(s.value, None): setter = "set_cands y_ None"
+            else: fail(s, "node field value")
+            return f"(let sd_ := upd_node sd_ {a[0]} (fun y_ => {setter}) in {self.block(rest)})"
+        # assert len(sd.node_successors(n, compute=True)) == 0
+        if isinstance(s, ast.Assert) and isinstance(s.test, ast.Compare) and len(s.test.ops) == 1 and isinstance(s.test.ops[0], ast.Eq) \
+                and isinstance(s.test.comparators[0], ast.Constant) and s.test.comparators[0].value == 0 and isinstance(s.test.left, ast.Call) \
+                and isinstance(s.test.left.func, ast.Name) and s.test.left.func.id == "len" and len(s.test.left.args) == 1 and succ_call(s.test.left.args[0]):
+            k = self.block(rest)
+            return with_successors(s.test.left.args[0], lambda v: f"(match {v} with [] => {k} | _ => SRaise sd_ (RRaised ErrAssert) end)")
+        # X = X | set(sd.node_successors(n, compute=True))
+        if isinstance(s, ast.Assign) and len(s.targets) == 1 and isinstance(s.targets[0], ast.Name) and self.locs.get(s.targets[0].id) == "natset" \
+                and isinstance(s.value, ast.BinOp) and isinstance(s.value.op, ast.BitOr) and isinstance(s.value.left, ast.Name) and s.value.left.id == s.targets[0].id \
+                and isinstance(s.value.right, ast.Call) and isinstance(s.value.right.func, ast.Name) and s.value.right.func.id == "set" and len(s.value.right.args) == 1 \
+                and succ_call(s.value.right.args[0]):
+            name = s.targets[0].id
+            self.need_state(name, s)
+            k = self.block(rest)
+            return with_successors(s.value.right.args[0], lambda v: f"(let {name} := union_nat {name} {v} in {k})")
+        # source_scc_diagrams = list(sd.source_scc_subdiagrams(node_id)): remember the node (its space gives the sub-networks)
+        if isinstance(s, ast.Assign) and len(s.targets) == 1 and isinstance(s.targets[0], ast.Name) and self.locs.get(s.targets[0].id) == "complist":
+            t = self.expr(s.value)
+            if t[2] != "complist" or t[1]: fail(s, "component list")
+            self.need_state(s.targets[0].id, s)
+            self.comp_node = self.last_comp_node
+            return self.guard(t[0], False, s.targets[0].id, self.block(rest))
+        if isinstance(s, ast.For) and isinstance(s.target, ast.Name) and self.spec["loopvars"].get(s.target.id) == "bitlist" and not s.orelse:
+            it = self.expr(s.iter)
+            if it[2] != "bitlistlist" or it[1]: fail(s, "loop iterable")
+            body = self.block(s.body)
+            head = (f"(s_for {it[0]} (fun {s.target.id} sd_ (st_ : {self.st_ty()}) => let {self.st_pat()} := st_ in "
+                    f"({body} : {self.flow_ty()})) sd_ {self.st_tuple()})")
+            return self.seq(head, rest)
+        # for scc_diagram in source_scc_diagrams: the loop variable is the component B; its sub-diagram object starts as init (sub_net N sp B)
+        if isinstance(s, ast.For) and isinstance(s.target, ast.Name) and self.spec["loopvars"].get(s.target.id) == "comp" and not s.orelse:
+            it = self.expr(s.iter)
+            if it[2] != "complist" or it[1]: fail(s, "component loop")
+            self.need_state("sub_", s)
+            body = self.block(s.body)
+            head = (f"(s_for {it[0]} (fun {s.target.id} sd_ (st_ : {self.st_ty()}) => let {self.st_pat()} := st_ in "
+                    f"let sub_ := init (sub_net N (n_space (get sd_ {self.comp_node})) {s.target.id}) in "
+                    f"({body} : {self.flow_ty()})) sd_ {self.st_tuple()})")
+            return self.seq(head, rest)
+        # fully_expanded = expander(scc_diagram): the recursive call on the sub-diagram (one nesting level = one unit of fuel)
+        if isinstance(s, ast.Assign) and len(s.targets) == 1 and isinstance(s.targets[0], ast.Name) and self.locs.get(s.targets[0].id) == "bool" \
+                and isinstance(s.value, ast.Call) and isinstance(s.value.func, ast.Name) and s.value.func.id == "expander" and len(s.value.args) == 1 \
+                and isinstance(s.value.args[0], ast.Name) and self.spec["loopvars"].get(s.value.args[0].id) == "comp" and not s.value.keywords:
+            if not getattr(self, "default_expander", False): fail(s, "expander is not known to be the recursive call")
+            name, B = s.targets[0].id, s.value.args[0].id
+            for n_ in (name, "tape_", "sub_"): self.need_state(n_, s)
+            k = self.block(rest)
+            return (f"(match py_expand_source_SCCs fuel_ (sub_net N (n_space (get sd_ {self.comp_node})) {B}) cfg sub_ tape_ check_maa (recursion + 1) with "
+                    f"SRet sub_ (b_, t_) => let tape_ := t_ in let {name} := b_ in {k} | SRaise _ e_ => SRaise sd_ e_ | SFuel _ => SFuel sd_ | SBad _ => SBad sd_ "
+                    f"| SCont _ _ => SBad sd_ | SNext _ _ => SBad sd_ end)")
+        # next_attach_at_list += attach_scc_subdiagram(sd, scc_diagram, attach_at, check_maa)
+        if isinstance(s, ast.AugAssign) and isinstance(s.op, ast.Add) and isinstance(s.target, ast.Name) and self.locs.get(s.target.id) == "natlist" \
+                and isinstance(s.value, ast.Call) and isinstance(s.value.func, ast.Name) and s.value.func.id == "attach_scc_subdiagram" and len(s.value.args) == 4 \
+                and not s.value.keywords and self.is_sd(s.value.args[0]) and isinstance(s.value.args[1], ast.Name) and self.spec["loopvars"].get(s.value.args[1].id) == "comp":
+            name, B = s.target.id, s.value.args[1].id
+            for n_ in (name, "tape_"): self.need_state(n_, s)
+            at, cm = self.expr(s.value.args[2]), self.expr(s.value.args[3])
+            if at[2] != "nat" or cm[2] != "bool" or at[1] or cm[1]: fail(s, "attach arguments")
+            k = self.block(rest)
+            return (f"(match py_attach_scc_subdiagram N cfg sd_ {B} tape_ sub_ {at[0]} {cm[0]} with "
+                    f"SRet sd_ (l_, t_) => let tape_ := t_ in let {name} := {name} ++ l_ in {k} | SRaise d_ e_ => SRaise d_ e_ | SFuel d_ => SFuel d_ | SBad d_ => SBad d_ "
+                    f"| SCont d_ _ => SBad d_ | SNext d_ _ => SBad d_ end)")
+        # X = X | set(list)
+        if isinstance(s, ast.Assign) and len(s.targets) == 1 and isinstance(s.targets[0], ast.Name) and self.locs.get(s.targets[0].id) == "natset" \
+                and isinstance(s.value, ast.BinOp) and isinstance(s.value.op, ast.BitOr):
+            t = self.expr(s.value)
+            if t[2] != "natset" or t[1]: fail(s, "set union")
+            self.need_state(s.targets[0].id, s)
+            return self.guard(t[0], False, s.targets[0].id, self.block(rest))
+        # if C: raise ... else: <debug only>
+        if isinstance(s, ast.If) and len(s.body) == 1 and isinstance(s.body[0], ast.Raise) and s.orelse and all(self.is_debug_block(b) for b in s.orelse):
+            c = self.expr(s.test)
+            if c[2] != "bool" or c[1]: fail(s, "condition")
+            return f"(if {c[0]} then (SRaise sd_ (RRaised ErrMotifLimit)) else {self.block(rest)})"
+        return None
+
     def scc_stmt(self, s, rest):
         """statement forms of attach_scc_subdiagram (two diagrams, the candidate-query tape, direct node-data assignments)"""
         isc = lambda v, c: isinstance(v, ast.Constant) and v.value is c
@@ -791,6 +977,9 @@ def translate_one(spec, node, cname, outer=None):
     fn.state = assigned_locals(node, locs)
     if has_break:
         fn.locs = locs = dict(locs, brk_="bool"); fn.env["brk_"] = "bool"; fn.state.append("brk_")
+    if spec.get("sccmain"):
+        for hidden in ("tape_", "sub_"):
+            if hidden not in fn.state: fn.state.append(hidden)
     parts = []
     for sub in spec.get("nested", []):
         subnodes = [n for n in node.body if isinstance(n, ast.FunctionDef) and n.name == sub["name"]]
@@ -821,7 +1010,13 @@ def translate_one(spec, node, cname, outer=None):
         parts.append(f"  {init}")
         parts.append("  s_close\n" + textwrap.indent(pretty(f"({body} : {fn.flow_ty()})"), "    ") + ".")
     else:
-        if spec.get("scc"):
+        if spec.get("sccmain"):
+            sig2 = " ".join(f"({x} : {COQ_TY[t]})" for x, t in spec["args"] if t != "expanderopt")
+            parts.append(f"Fixpoint {cname} (fuel : nat) (N : net) (cfg : config) (sd_ : sd) (tape : list (option bool)) {sig2} {{struct fuel}} : sflow {COQ_TY[fn.ret]} unit :=")
+            parts.append("  match fuel with\n  | O => SFuel sd_\n  | S fuel_ =>")
+            parts.append(f"  let no_sd_ := sd_ in {init}")
+            parts.append("  s_close\n" + textwrap.indent(pretty(f"({body} : {fn.flow_ty()})"), "    ") + "\n  end.")
+        elif spec.get("scc"):
             parts.append(f"Definition {cname} (N : net) (cfg : config) (sd_ : sd) {sig} : sflow {COQ_TY[fn.ret]} unit :=")
             parts.append(f"  {init}")
             parts.append("  s_close\n" + textwrap.indent(pretty(f"({body} : {fn.flow_ty()})"), "    ") + ".")
@@ -840,7 +1035,7 @@ def translate(fname, names):
              "   Each definition is the translation of the Python function of the same name (embedding: PyLibSd.v" + (", PyLibSd2.v" if ext else "") + ").",
              "   PySrcSdFacts.v / PySrcSdTargetFacts.v / PySrcSdMinFacts.v prove them equal to the model's strategy functions of Diagram.v. *)",
              "From Coq Require Import List Bool Arith.", "Import ListNotations.",
-             "From BB Require Import BN" + (" Brute Candidates Blocks" if aseeds else "") + " Diagram PyLib PyLibSd" + (" PyLibCore PyLibSd2" if ext else "") + (" PySrcSdMin" if aseeds else "") + (" Brute Blocks SCC PyLibCore PyLibSd2 PyLibScc" if scc else "") + ".", ""]
+             "From BB Require Import BN" + (" Brute Candidates Blocks" if aseeds else "") + " Diagram PyLib PyLibSd" + (" PyLibCore PyLibSd2" if ext else "") + (" PySrcSdMin" if aseeds else "") + (" Brute Blocks SCC PyLibCore PyLibSd2 PyLibScc" if scc else "") + (" Control PyLibControl PySrcSdScc" if any(s_.get("sccmain") for s_ in FUNCS if s_["name"] in names) else "") + ".", ""]
     for spec in FUNCS:
         name, path = spec["name"], spec["path"]
         if name not in names: continue
